@@ -15,9 +15,11 @@ a missing attribute is caught per object and counts as a non-match, and no `~` i
 match documents lacking the attribute); (types-always) that type selection applies on every return of the search and
 query paths, the helper keeping in order exactly the requested types and the filter returning a sub-sequence of its
 candidates; (order) that the sort key is every requested attribute in request order and the direction the requested
-one.
+one, and that Utils.get_nested - interpreted (absint.MiniExec, no repository code runs) on paths of depth 1..3 with every
+falsy leaf value - returns exactly the stored leaf and None only for an absent path (skipped with a note when the helper
+leaves the interpreted subset).
 Does not decide equivalence with a predicate evaluator over generated stores, TinyDB's own semantics, comparisons of
-values of different types, nor the bodies of Utils.get_nested / find_attribute (resolved as callees).
+values of different types, nor the body of Utils.find_attribute (resolved as a callee).
 
 All decisions are taken on the AST / the flow facts (canonical atoms, locals resolved through the flow, arguments bound
 to parameter names, callees resolved by the program model) - never on source text.
@@ -25,6 +27,7 @@ to parameter names, callees resolved by the program model) - never on source tex
 from __future__ import annotations
 
 import ast
+import copy
 
 from .. import sem
 from ..flow import FunctionFlow, cond_atoms
@@ -260,6 +263,85 @@ def _default_logical_operator(P, fi) -> set:
     return out
 
 
+class _DataExec:
+    """Factory for a MiniExec over plain data (dict / list / str / numbers): len, isinstance with real semantics, slices,
+    dict methods.  Built lazily from the evaluator of C10 so that both share one interpretation of expressions."""
+
+    @staticmethod
+    def make():
+        from .c10 import Exec
+
+        class DataExec(Exec):
+            TYPES = {"dict": dict, "list": (list, tuple), "tuple": (list, tuple), "str": str, "int": int, "float": float,
+                     "bool": bool, "bytes": bytes, "set": (set, frozenset)}
+
+            def ev(self, e):
+                if isinstance(e, ast.Slice):
+                    return slice(self.ev(e.lower) if e.lower is not None else None,
+                                 self.ev(e.upper) if e.upper is not None else None,
+                                 self.ev(e.step) if e.step is not None else None)
+                if isinstance(e, (ast.List, ast.Tuple)):
+                    return [self.ev(x) for x in e.elts]
+                if isinstance(e, ast.Dict) and all(k is not None for k in e.keys):
+                    return {self.ev(k): self.ev(v) for k, v in zip(e.keys, e.values)}
+                if isinstance(e, ast.Call):
+                    fd = dotted(e.func) or ""
+                    if fd == "len" and len(e.args) == 1:
+                        return len(self.ev(e.args[0]))
+                    if fd == "isinstance" and len(e.args) == 2:
+                        t = e.args[1]
+                        names = [dotted(x) for x in (t.elts if isinstance(t, ast.Tuple) else [t])]
+                        if all(n_ in self.TYPES for n_ in names):
+                            v = self.ev(e.args[0])
+                            return any(isinstance(v, self.TYPES[n_]) and not (n_ in ("int", "float") and isinstance(v, bool) and n_ == "float")
+                                       for n_ in names)
+                        raise AnalysisError(f"DataExec: isinstance against {names}")
+                    if fd in ("list", "tuple", "dict", "str") and len(e.args) <= 1:
+                        return {"list": list, "tuple": list, "dict": dict, "str": str}[fd](*[self.ev(a) for a in e.args])
+                    if isinstance(e.func, ast.Attribute) and e.func.attr in ("items", "keys", "values", "split", "startswith", "copy") \
+                            and not e.keywords:
+                        obj = self.ev(e.func.value)
+                        if isinstance(obj, (dict, str, list)):
+                            r = getattr(obj, e.func.attr)(*[self.ev(a) for a in e.args])
+                            return list(r) if e.func.attr in ("items", "keys", "values") else r
+                return super().ev(e)
+        return DataExec
+
+
+def check_order_key(ctx, P) -> None:
+    """The ordering key (and the station-id lookup) reads a stored value through Utils.get_nested(object, path).  Interpreted
+    on representatives - paths of depth 1..3, leaf values including every falsy one (0, 0.0, '', False, [], {}) - it returns
+    exactly the stored leaf, and None exactly when the path is absent: a helper that answers None for a stored 0 makes an
+    ordered request over generationDeltaTime / speedValue / stationType raise TypeError in sorted() or misplace the object."""
+    utils = P.cls(f"{LDM}.ldm_classes.Utils")
+    gn = utils.methods.get("get_nested")
+    if gn is None or len(gn.params) != 2:
+        raise AnalysisError("C13: Utils.get_nested(data, path) vanished or changed its parameters")
+    DataExec = _DataExec.make()
+    leaves = [0, 0.0, "", False, [], {}, 7, "x", 3.5, True]
+    cases = []
+    for v in leaves:
+        cases += [({"a": v}, ["a"], v), ({"a": {"b": v}}, ["a", "b"], v), ({"a": {"b": {"c": v}, "z": 1}}, ["a", "b", "c"], v)]
+    cases += [({"a": {"c": 1}}, ["a", "b"], None), ({}, ["a"], None), ({"a": 1}, ["b"], None), ({"a": {"b": 1}}, ["a", "x", "y"], None)]
+    bad, unsupported = [], None
+    for data, path, want in cases:
+        try:
+            got = DataExec(P, gn, {gn.params[0]: copy.deepcopy(data), gn.params[1]: list(path)}).run()
+        except AnalysisError as e_:
+            unsupported = str(e_)
+            break
+        except (TypeError, KeyError, AttributeError, IndexError) as e_:
+            got = f"<raises {type(e_).__name__}>"
+        if not (got == want and type(got) is type(want)):
+            bad.append(f"get_nested({data!r}, {path!r}) = {got!r}, stored value is {want!r}")
+    if unsupported is not None:
+        ctx.note(f"C13.order: Utils.get_nested uses a construct outside the interpreted subset ({unsupported}); order-key obligation skipped")
+        return
+    ctx.ob("C13.order", gn.short(), "key-is-the-stored-leaf", not bad,
+           f"Utils.get_nested returns the stored leaf on all {len(cases)} representatives (falsy leaves included) and None for absent paths"
+           if not bad else "Utils.get_nested does not return what is stored: " + "; ".join(bad[:3]), gn.loc)
+
+
 def run(ctx):
     P = ctx.prog
     ctx.explanation = (
@@ -272,7 +354,7 @@ def run(ctx):
         "the ordering are checked the same way. These are agreements between code sites, decided on the syntax tree and "
         "the flow facts, valid for every filter and store.")
     ctx.declined = ["equivalence with a predicate evaluator over generated stores", "TinyDB query semantics",
-                    "comparison of values of different types", "bodies of Utils.get_nested / Utils.find_attribute / "
+                    "comparison of values of different types", "body of Utils.find_attribute / "
                     "RequestDataObjectsReq.get_object_type_from_data_object (resolved as callees, not re-derived)"]
     mod = P.module(f"{LDM}.ldm_constants")
     cmp_cls = P.cls(f"{LDM}.ldm_classes.ComparisonOperators")
@@ -291,6 +373,7 @@ def run(ctx):
     ctx.floor("C13.ops", 38)
     check_path_root(ctx, P, db, tdb)
     check_missing_attr(ctx, P, db)
+    check_order_key(ctx, P)
     check_types(ctx, P, db, tdb)
     ctx.floor("C13.types-always", 9)
     check_order(ctx, P)
